@@ -12,7 +12,7 @@ def SidsOk (k : K) : Prop :=
 /-- I1: the jobs started, the rest of the current batch and the queue are, in this order, exactly the
 jobs enqueued (and not discarded by an interrupt). -/
 structure QInv (k : K) : Prop where
-  fifo : k.ran ++ k.cur ++ k.queue = k.enq
+  fifo : k.ran ++ k.jobs = k.enq
   sids : SidsOk k
 
 theorem sidsOk_append {k : K} (h : SidsOk k) (js : List Job) (n : Nat)
@@ -48,51 +48,51 @@ theorem qinv_enqueue {k : K} (h : QInv k) (mk : Nat → Job) (hmk : ∀ s, (mk s
     rw [← h.fifo]; simp [List.append_assoc]
   · exact sidsOk_append h.sids [mk k.nextSid] 1 (by simp [hmk, List.range'_one])
 
-theorem qinv_congr {k k' : K} (h : QInv k) (h1 : k'.ran = k.ran) (h2 : k'.cur = k.cur) (h3 : k'.queue = k.queue)
+theorem qinv_congr {k k' : K} (h : QInv k) (h1 : k'.ran = k.ran) (h2 : k'.jobs = k.jobs)
     (h4 : k'.enq = k.enq) (h5 : k'.nextSid = k.nextSid) : QInv k' := by
   constructor
-  · rw [h1, h2, h3, h4]; exact h.fifo
+  · rw [h1, h2, h4]; exact h.fifo
   · unfold SidsOk; rw [h4, h5]; exact h.sids
 
 theorem qinv_rejectP {k : K} (h : QInv k) (p : Nat) (v : Val) : QInv (rejectP k p v) := by
   unfold rejectP
   apply qinv_trigger
   split
-  · exact qinv_congr h rfl rfl rfl rfl rfl
-  · exact qinv_congr h rfl rfl rfl rfl rfl
+  · exact qinv_congr h rfl rfl rfl rfl
+  · exact qinv_congr h rfl rfl rfl rfl
 
 theorem qinv_fulfillP {k : K} (h : QInv k) (p : Nat) (v : Val) : QInv (fulfillP k p v) := by
   unfold fulfillP
   apply qinv_trigger
-  exact qinv_congr h rfl rfl rfl rfl rfl
+  exact qinv_congr h rfl rfl rfl rfl
 
 theorem qinv_markHandled {k : K} (h : QInv k) (p rid : Nat) : QInv (markHandled k p rid) :=
-  qinv_congr h rfl rfl rfl rfl rfl
+  qinv_congr h rfl rfl rfl rfl
 
 theorem qinv_addReactionsCore {k : K} (h : QInv k) (p : Nat) (fr rr : Reaction) :
     QInv (addReactionsCore k p fr rr) := by
   unfold addReactionsCore
   simp only []
   split
-  · exact qinv_congr h rfl rfl rfl rfl rfl
+  · exact qinv_congr h rfl rfl rfl rfl
   · apply qinv_enqueue h
     intro s; rfl
   · apply qinv_enqueue
     · split
       · exact h
-      · exact qinv_congr h rfl rfl rfl rfl rfl
+      · exact qinv_congr h rfl rfl rfl rfl
     · intro s; rfl
 
 theorem qinv_applyOp {k : K} (h : QInv k) (op : KOp) : QInv (applyOp op k) := by
   cases op with
-  | newCap => exact qinv_congr h rfl rfl rfl rfl rfl
+  | newCap => exact qinv_congr h rfl rfl rfl rfl
   | callResolve l v look =>
     simp only [applyOp, callResolve]
     split
     · exact h
     · split
       · exact h
-      · have h' : QInv { k with latches := k.latches.set l (‹Nat›, true) } := qinv_congr h rfl rfl rfl rfl rfl
+      · have h' : QInv { k with latches := k.latches.set l (‹Nat›, true) } := qinv_congr h rfl rfl rfl rfl
         split
         · exact qinv_rejectP h' _ _
         · split
@@ -107,34 +107,26 @@ theorem qinv_applyOp {k : K} (h : QInv k) (op : KOp) : QInv (applyOp op k) := by
     · split
       · exact h
       · apply qinv_rejectP
-        exact qinv_congr h rfl rfl rfl rfl rfl
+        exact qinv_congr h rfl rfl rfl rfl
   | addReactions p cap f g =>
     simp only [applyOp, addReactions]
     split
     · apply qinv_markHandled
       apply qinv_addReactionsCore
-      exact qinv_congr h rfl rfl rfl rfl rfl
-    · exact h
-  | swap =>
-    simp only [applyOp, swap]
-    split
-    · rename_i hc
-      constructor
-      · have := h.fifo; rw [hc] at this; simpa using this
-      · exact h.sids
+      exact qinv_congr h rfl rfl rfl rfl
     · exact h
   | popJob =>
     simp only [applyOp, popJob]
     split
     · exact h
     · rename_i j rest hc
-      have h' : QInv { k with cur := rest, ran := k.ran ++ [j] } := by
+      have h' : QInv { k with jobs := rest, ran := k.ran ++ [j] } := by
         constructor
         · have := h.fifo; rw [hc] at this; simpa [List.append_assoc] using this
         · exact h.sids
       split
       · exact h'
-      · exact qinv_congr h' rfl rfl rfl rfl rfl
+      · exact qinv_congr h' rfl rfl rfl rfl
   | leaveAbrupt =>
     simp only [applyOp, leaveAbrupt]
     constructor
@@ -143,11 +135,11 @@ theorem qinv_applyOp {k : K} (h : QInv k) (op : KOp) : QInv (applyOp op k) := by
       have he := h.fifo
       constructor
       · simp only []
-        rw [← he, List.append_assoc, List.map_append, List.pairwise_append] at h1
+        rw [← he, List.map_append, List.pairwise_append] at h1
         exact h1.1
       · intro s hs
         apply h2
-        rw [← he, List.append_assoc, List.map_append, List.mem_append]
+        rw [← he, List.map_append, List.mem_append]
         exact Or.inl hs
 
 theorem qinv_reach {k : K} (h : Reach k) : QInv k := by
